@@ -368,6 +368,8 @@ static std::string argOf(int argc, char** argv, const char* name, const char* df
   return dflt;
 }
 
+extern "C" void __sanitizer_print_memory_profile(size_t, size_t) __attribute__((weak));
+
 int harnessMain(int argc, char** argv, const HarnessDef& def) {
   if (argc < 2) {
     fprintf(stderr, "usage: %s gen|fixed|replay ...\n", argv[0]);
@@ -378,6 +380,9 @@ int harnessMain(int argc, char** argv, const HarnessDef& def) {
   auto finish = [](int code) {
     fflush(stdout);
     fflush(stderr);
+    // VP_MEMPROFILE=1: live heap by allocation site (ASan builds), to find what
+    // a long campaign retains between cases
+    if (getenv("VP_MEMPROFILE") && __sanitizer_print_memory_profile) __sanitizer_print_memory_profile(95, 12);
     // Stats singleton destructor must not run (see DESIGN.md 3.4)
     std::string base = Process::get().base;
     Process::get().sim.reset();
